@@ -231,7 +231,10 @@ def sets_best(tree: ast.Module) -> bool:
 
 
 def default_box(src: str):
-    """`bounds=[bounds.get(name, (lo, hi)) for name in p0]` in LocalScipyMinimizer.__call__ -> (lo, hi)"""
+    """the boxes LocalScipyMinimizer.__call__ hands to scipy -> (lo, hi, only_if_inside):
+    `bounds=[bounds.get(name, (lo, hi)) for name in p0]` (pinned: the default box for every name without bounds) or, with
+    `default = (lo, hi)` before it, `bounds=[bounds.get(name, default if default[0] <= value <= default[1] else (None, None))
+    for name, value in p0.items()]` (the default box only for a start value inside it; otherwise no box)"""
     tree = ast.parse(src)
     cls = next((n for n in tree.body if isinstance(n, ast.ClassDef) and n.name == "LocalScipyMinimizer"), None)
     if cls is None:
@@ -243,15 +246,28 @@ def default_box(src: str):
         if isinstance(node, ast.Call) and ast.unparse(node.func) == "minimize":
             kw = {k.arg: k.value for k in node.keywords}
             b = kw.get("bounds")
-            if (isinstance(b, ast.ListComp) and len(b.generators) == 1 and not b.generators[0].ifs
-                    and ast.unparse(b.generators[0].iter) == "p0" and isinstance(b.generators[0].target, ast.Name)
-                    and isinstance(b.elt, ast.Call) and ast.unparse(b.elt.func) == "bounds.get" and len(b.elt.args) == 2
-                    and ast.unparse(b.elt.args[0]) == b.generators[0].target.id):
+            if ast.unparse(kw.get("x0")) != "list(p0.values())":
+                raise Unsupported("x0 is not list(p0.values())")
+            if not (isinstance(b, ast.ListComp) and len(b.generators) == 1 and not b.generators[0].ifs
+                    and isinstance(b.elt, ast.Call) and ast.unparse(b.elt.func) == "bounds.get" and len(b.elt.args) == 2):
+                raise Unsupported("bounds= of the minimize call changed shape: " + (ast.unparse(b) if b is not None else "missing"))
+            gen = b.generators[0]
+            if (ast.unparse(gen.iter) == "p0" and isinstance(gen.target, ast.Name) and ast.unparse(b.elt.args[0]) == gen.target.id):
                 lo, hi = ast.literal_eval(b.elt.args[1])
-                if ast.unparse(kw.get("x0")) != "list(p0.values())":
-                    raise Unsupported("x0 is not list(p0.values())")
-                return Fraction(repr(float(lo))), Fraction(repr(float(hi)))
-            raise Unsupported("bounds= of the minimize call changed shape: " + (ast.unparse(b) if b is not None else "missing"))
+                return Fraction(repr(float(lo))), Fraction(repr(float(hi))), False
+            if (ast.unparse(gen.iter) == "p0.items()" and isinstance(gen.target, ast.Tuple) and len(gen.target.elts) == 2
+                    and all(isinstance(e, ast.Name) for e in gen.target.elts)):
+                nm, val = (e.id for e in gen.target.elts)
+                d = ast.unparse(b.elt.args[1])
+                dname = d.split(" ", 1)[0]
+                if ast.unparse(b.elt.args[0]) != nm or d != f"{dname} if {dname}[0] <= {val} <= {dname}[1] else (None, None)":
+                    raise Unsupported("default of bounds.get: " + d)
+                assign = next((st for st in call.body if isinstance(st, ast.Assign) and ast.unparse(st.targets[0]) == dname), None)
+                if assign is None:
+                    raise Unsupported(f"no `{dname} = (lo, hi)` before the minimize call")
+                lo, hi = ast.literal_eval(assign.value)
+                return Fraction(repr(float(lo))), Fraction(repr(float(hi))), True
+            raise Unsupported("bounds= of the minimize call changed shape: " + ast.unparse(b))
     raise Unsupported("no minimize(...) call in LocalScipyMinimizer.__call__")
 
 
@@ -365,7 +381,7 @@ def render(repo: Path) -> str:
         needs[fn.name] = cls
     guard = check_settings((repo / "src/mxlpy/fit/abstract.py").read_text())
     defaults = check_routines((repo / "src/mxlpy/fit/routines.py").read_text())
-    lo, hi = default_box((repo / "src/mxlpy/minimizers/_scipy.py").read_text())
+    lo, hi, inside = default_box((repo / "src/mxlpy/minimizers/_scipy.py").read_text())
     gbox = global_box((repo / "src/mxlpy/minimizers/_scipy.py").read_text(), lo, hi)
     uorder = update_order((repo / "src/mxlpy/fit/routines.py").read_text())
     bhb = basinhopping_bounded((repo / "src/mxlpy/minimizers/_scipy.py").read_text())
@@ -400,6 +416,8 @@ def render(repo: Path) -> str:
         f"def basinhoppingBounded : Bool := {'true' if bhb else 'false'}\n\n"
         "/-- GlobalScipyMinimizer hands scipy one box per entry of p0 (the caller's, or the default box) -/\n"
         f"def globalUsesBox : Bool := {'true' if gbox else 'false'}\n\n"
+        "/-- LocalScipyMinimizer applies its default box only to a start value that lies inside it (no box otherwise) -/\n"
+        f"def localBoxOnlyIfInside : Bool := {'true' if inside else 'false'}\n\n"
         "/-- the losses that need no sqrt/log, evaluated at Rat by the driver -/\n"
         "def evalRat (name : String) (d p : List Rat) : Option Rat :=\n  match name with\n"
         + rat_cases + "\n  | _ => none\n\n"
@@ -430,6 +448,7 @@ def generate(repo: Path, outdir: Path) -> None:
                               "def globalUsesBox : Bool := false\n"
                               "def updateOrder : List String := []\n"
                               "def basinhoppingBounded : Bool := false\n"
+                              "def localBoxOnlyIfInside : Bool := false\n"
                               "def settingsLoss {α : Type} [Sub α] [Div α] [LT α] [DecidableLT α] [NatCast α]\n"
                               "    (lossFn : List α → List α → α) (standardScale : Bool) (mean scale : α) (data prediction : List α) : α :=\n"
                               "  scaledLoss false lossFn standardScale mean scale data prediction\n"
